@@ -7,6 +7,8 @@ CONSTANTS Principals = {"A"}
           BoomCodes = {"boom"}
           Strategies = {"S1", "S2"}
           MaxReq = 9
+          TempNames = {}
+          GenPNames = {}
           FilterOnOwner = TRUE
           FixedF8 = TRUE
 INVARIANTS NoUnexplainedRead NoUnexplainedEffect NoUnexplainedResult ResultsMatchCode ErrorNotEmpty EndedNotRunning
